@@ -12,7 +12,7 @@ FEE = ('pct', '0.001', '0')
 INITIALS = [
     (),
     (('acct_sub', '5000'), ('create', '1'), ('create', '2'), ('pf_sub', '1', '2000'),
-     ('pf_sub', '2', '2000'), ('submit', '1', 'A', 5), ('submit', '2', 'B', -3), ('tick', 2)),
+     ('pf_sub', '2', '2000'), ('submit', '1', 'A', 5), ('submit', '1', 'B', 2), ('submit', '2', 'B', -3), ('tick', 2)),
     # portfolio clocks ahead of earlier open instants, nothing held
     (('acct_sub', '5000'), ('create', '1'), ('create', '2'), ('tick', 3), ('pf_sub', '1', '2000'),
      ('pf_sub', '2', '2000')),
@@ -38,6 +38,11 @@ def alphabet(m):
         for p in m.pfs:
             if m.pfs[p].clock <= m.clock:
                 evs.append(('pf_direct_sub', p, '10', m.clock + 1))
+            # a price mark given to the portfolio directly with a LATER timestamp: that position's clock then
+            # runs ahead of the broker's
+            for a, mp in sorted(m.pfs[p].pos.items()):
+                if mp.clock <= m.clock:
+                    evs.append(('mark_at', p, a, '12.25', m.clock + 1))
     return evs
 
 
@@ -185,7 +190,8 @@ def faults(m):
                         ValueError, True))
     # a broker clock update to an earlier instant: the contract documents no refusal, so it is
     # only held to "if refused, nothing changed" (both quote tables, so re-marking is visible)
-    for k in range(0, m.clock):
+    latest = max([m.clock] + [p.clock for p in m.pfs.values()] + [mp.clock for p in m.pfs.values() for mp in p.pos.values()])
+    for k in range(0, latest):
         for tab in (0, 1):
             def thunk(k=k, tab=tab):
                 m.dh.table = tab
